@@ -5,6 +5,7 @@ package main
 import (
 	"fmt"
 	"math"
+	"os"
 	"go/token"
 	"go/types"
 	"strings"
@@ -358,6 +359,24 @@ func (x *Exec) vxIntrinsic(fn *ssa.Function, short string, args []Value, g *Term
 	case "vxMutexFree":
 		st := x.ptrExtend(args[0], PathElem{Field: 0})
 		return c.Eq(x.load(st).(*Term), c.Const(32, 0))
+	case "vxPrint":
+		if os.Getenv("VX_TRACE") != "" {
+			v := args[1]
+			if iv, ok := v.(*IfaceV); ok {
+				v = iv.V
+			}
+			if t, ok := v.(*Term); ok && t.Sort.K != SFP {
+				x.nprint++
+				nm := fmt.Sprintf("trace.%03d.%s", x.nprint, x.knownStr(args[0], short))
+				tv := c.Var(nm, t.Sort)
+				gv := c.Var(nm+".reached", BoolSort)
+				x.traceEqs = append(x.traceEqs, c.And(c.Eq(tv, t), c.Eq(gv, g)))
+			}
+		}
+		if x.c.Concrete != nil {
+			fmt.Fprintf(os.Stderr, "VXPRINT %s = %s (guard %s)\n", x.knownStr(args[0], short), x.showVal(args[1]), x.c.Show(g, 2))
+		}
+		return nil
 	case "vxPrefer":
 		// soft constraint used only to pick a replay-friendly counterexample (never to decide)
 		x.prefers = append(x.prefers, c.Implies(g, args[0].(*Term)))
@@ -398,6 +417,24 @@ func (x *Exec) vxIntrinsic(fn *ssa.Function, short string, args []Value, g *Term
 		}
 		x.everStubbed[nm] = true
 		return nil
+	case "vxStubNested":
+		// like vxStub, but the replacement is used only for calls made while the named function is
+		// already executing (recursive calls): the outermost call runs the real code
+		nm := x.knownStr(args[0], short)
+		fv, ok := args[1].(*IfaceV).V.(*FuncV)
+		if !ok || fv.Fn == nil {
+			x.fail("vxStubNested: second argument must be a function value")
+		}
+		if x.nestedStubs == nil {
+			x.nestedStubs = map[string]*FuncV{}
+			x.active = map[string]int{}
+		}
+		x.nestedStubs[nm] = fv
+		return nil
+	case "vxFreshI16":
+		return c.Fresh(x.knownStr(args[0], short), BV(16))
+	case "vxFreshBool":
+		return c.Fresh(x.knownStr(args[0], short), BoolSort)
 	case "vxUnstub":
 		delete(x.stubs, x.knownStr(args[0], short))
 		return nil
@@ -494,4 +531,17 @@ func (x *Exec) applyOpts() {
 	if v, ok := x.opts["explicit-panic"]; ok {
 		x.panicAsAssume = v == "ignore"
 	}
+}
+
+func (x *Exec) showVal(v Value) string {
+	if iv, ok := v.(*IfaceV); ok {
+		v = iv.V
+	}
+	if t, ok := v.(*Term); ok {
+		if t.IsConst() && t.Sort.K == SBV {
+			return fmt.Sprintf("%d (signed %d)", t.K, t.SignedVal())
+		}
+		return x.c.Show(t, 4)
+	}
+	return fmt.Sprintf("%T", v)
 }
